@@ -783,6 +783,10 @@ func vsScenarioOf(seed, id int, big bool) vsScenario {
 	}
 	sc := vsScenario{id: id, seed: seed*100000 + id, transport: []string{"pair", "pair", "tcp", "unix"}[r.Intn(4)],
 		handler: r.Intn(3) != 0, total: totals[r.Intn(len(totals))] + r.Intn(3), smallBuf: r.Intn(3) != 0, slowRead: r.Intn(2) == 0}
+	if sc.transport == "tcp" && sc.smallBuf && sc.total > 1<<20+2 {
+		// (-big only) a 4 KB TCP window moves some 50 KB/s on a loaded machine: 4 MB and more do not fit the 60 s deadline
+		sc.total = 1<<20 + r.Intn(3)
+	}
 	if id%6 == 2 {
 		// every sixth scenario: delays in front of the sender's epoll_ctl calls, every flush larger than the socket buffer
 		sc.jitter, sc.transport, sc.smallBuf = true, "pair", true
@@ -810,6 +814,9 @@ func vsScenarioOf(seed, id int, big bool) vsScenario {
 		sc.total = 200000 + r.Intn(3)
 		if !sc.smallBuf {
 			sc.total = 4<<20 + r.Intn(3)
+			if sc.transport == "tcp" {
+				sc.total = 16<<20 + r.Intn(3) // default TCP buffers auto-tune up to several MB
+			}
 		}
 	}
 	if id%6 == 3 || id%6 == 2 {
